@@ -3,7 +3,11 @@
 //          FAIL(text) at a decoded (file, line) in its body and/or teardown, optionally preceded by failures that do not
 //          leave the test; failure locations inside the test, in another file, or above the test's line (the
 //          "TEST failed (file:line): " branch).  Names, paths and messages from token tables weighted towards ' | [ ]
-//          (messages also CR, LF).  Group names are never empty (DESIGN A.5).
+//          (messages also CR, LF).  One string in ten is LONG: its length comes from a lattice around the powers of two
+//          (63..5000) or is random, and it is a run of one ordinary character, a cycling alphabet, a run of one character
+//          that needs escaping, an ordinary run with one special character, or alternating blocks.  A test may also fail
+//          by a real STRCMP_EQUAL of two long strings (the message built by the framework holds both operands).
+//          Group names are never empty (DESIGN A.5).
 // Execution: a REAL run: TestRegistry::runAllTests with a TeamCityTestOutput subclass that only captures printBuffer.
 // Oracle:  an independent decoder of the service-message grammar; the decoded message sequence must equal the sequence
 //          the script implies (suite start/finish paired by name around its tests, test start/finish paired by name,
@@ -12,6 +16,7 @@
 #include "common.h"
 #include "CppUTest/TeamCityTestOutput.h"
 #include <memory>
+#include <algorithm>
 
 using verif::Reader;
 using verif::sfmt;
@@ -21,7 +26,8 @@ namespace {
 const char* const KEY_FILE = "C20:test-file-unescaped-in-failed-message";
 
 // ---------------------------------------------------------------- model of a case
-struct Step { bool exits; std::string text, file; uint32_t line; };   // FAIL(text) at (file,line); exits == leaves the phase (the normal FAIL)
+struct Step { bool exits; std::string text, file; uint32_t line; bool strcmp = false; std::string op2; };
+// FAIL(text) at (file,line); exits == leaves the phase (the normal FAIL); strcmp: STRCMP_EQUAL(text, op2) at (file,line) instead
 struct TestM { std::string group, name, file; uint32_t line = 1; bool ignored = false; std::vector<Step> body, teardown; };
 struct CaseM { bool runIgnored = false; std::vector<TestM> tests; };   // in run order; a suite = maximal run of equal group names
 
@@ -30,6 +36,8 @@ struct Event {
     std::string name;                 // suite or test name
     std::string loc, locWithPrefix;   // TestFailed: "file:line" and "TEST failed (tfile:tline): file:line"
     std::string details;              // TestFailed: the failure message
+    bool natural = false;             // TestFailed: message built by the framework (STRCMP_EQUAL); details = operand 1, details2 = operand 2
+    std::string details2;
     bool outside = false;             // TestFailed: reported from another file or from above the test's line
     bool knownCondition = false;      // TestFailed: outside && the test's file name needs escaping
 };
@@ -55,7 +63,39 @@ void add_class(Reader& r, std::string& s, uint32_t cls, uint32_t n) {   // 0 pla
     case 2: for (uint32_t i = 0; i < n; i++) s.push_back((char)(0x20 + r.below(95))); break;
     }
 }
+// ---- long strings: the code imposes no length limit, so neither does the generator
+const uint32_t LENS[] = {0, 1, 2, 63, 64, 65, 127, 128, 129, 255, 256, 257, 511, 512, 1000, 4095, 4096, 5000};
+const char ORDINARY[] = "abcdefghijklmnopqrstuvwxyz0123456789ABCDEFGHIJKLMNOPQRSTUVWXYZ _.,:;/\\-+*=()<>&\"#%!?$@^~{}`";
+std::string gen_long(Reader& r, const char* specials, uint32_t minlen) {
+    uint32_t li = r.below(24);
+    uint32_t len = li < 18 ? LENS[li] : r.below(5001);
+    if (len < minlen) len = minlen;
+    size_t nsp = strlen(specials), nord = sizeof ORDINARY - 1;
+    uint32_t shape = r.below(6);
+    if (nsp == 0 && shape >= 2) shape &= 1;
+    std::string s;
+    s.reserve(len);
+    switch (shape) {
+    default:
+    case 0: { char ch = ORDINARY[r.below((uint32_t)nord)]; s.assign(len, ch); break; }                                   // one ordinary character
+    case 1: { uint32_t off = r.below((uint32_t)nord); for (uint32_t i = 0; i < len; i++) s.push_back(ORDINARY[(off + i) % nord]); break; }   // cycling alphabet
+    case 2: { char ch = specials[r.below((uint32_t)nsp)]; s.assign(len, ch); break; }                                 // one character that needs escaping
+    case 3: {                                                                                                             // ordinary run with one special character in it
+        char ch = ORDINARY[r.below(36)]; s.assign(len, ch);
+        if (len) { uint32_t pv = r.below(4); uint32_t pos = pv == 0 ? len - 1 : (pv == 1 ? len / 2 : (pv == 2 ? 0 : r.below(len > 65536 ? 65536 : len))); s[pos] = specials[r.below((uint32_t)nsp)]; }
+        break; }
+    case 4: {                                                                                                             // blocks of ordinary characters separated by one special character
+        static const uint32_t BL[] = {1, 2, 63, 64, 126, 127, 128, 129, 255, 256};
+        uint32_t bl = r.pick(BL); char sp = specials[r.below((uint32_t)nsp)]; char ch = ORDINARY[r.below(36)];
+        for (uint32_t i = 0; i < len; i++) s.push_back((i % (bl + 1)) == bl ? sp : ch);
+        break; }
+    case 5: { for (uint32_t i = 0; i < len; i++) s.push_back(i % 2 ? specials[(i / 2) % nsp] : ORDINARY[(i / 2) % nord]); break; }   // every second character needs escaping
+    }
+    return s;
+}
+
 std::string gen_name(Reader& r, uint32_t maxtok) {   // never empty
+    if (r.below(10) == 9) return gen_long(r, "'|[]", 1);
     uint32_t v = r.below(8);
     uint32_t cls = v == 0 ? 0 : (v <= 5 ? 1 : 2);
     std::string s;
@@ -63,6 +103,7 @@ std::string gen_name(Reader& r, uint32_t maxtok) {   // never empty
     return s;
 }
 std::string gen_text(Reader& r, uint32_t maxtok) {   // messages: may be empty, may contain line breaks
+    if (r.below(10) == 9) return gen_long(r, "'|[]\r\n", 0);
     uint32_t cls = r.below(4);   // 0 plain, 1 specials, 2 specials + breaks, 3 printable + breaks
     uint32_t n = r.below(maxtok + 1);
     std::string s;
@@ -89,6 +130,26 @@ Step gen_step(Reader& r, const TestM& t, bool exits) {
     }
     return s;
 }
+// STRCMP_EQUAL(a, b) with two different, mostly long operands: the framework builds "expected <a>\n\tbut was  <b>\n\tdifference ..."
+Step gen_strcmp_step(Reader& r, const TestM& t) {
+    Step s = gen_step(r, t, true);
+    s.strcmp = true;
+    static const uint32_t OL[] = {200, 127, 128, 255, 256, 1000, 3000, 20};
+    uint32_t len = r.pick(OL);
+    uint32_t shape = r.below(3);
+    s.text.clear();
+    if (shape == 0) s.text.assign(len, ORDINARY[r.below(36)]);
+    else if (shape == 1) for (uint32_t i = 0; i < len; i++) s.text.push_back(ORDINARY[i % (sizeof ORDINARY - 1)]);
+    else for (uint32_t i = 0; i < len; i++) s.text.push_back((i % 50) == 49 ? "'|[]\r\n"[(i / 50) % 6] : ORDINARY[i % 36]);
+    s.op2 = s.text;
+    switch (r.below(3)) {
+    default:
+    case 0: s.op2 += "X"; break;
+    case 1: { uint32_t pos = r.below(len); s.op2[pos] = s.op2[pos] == '#' ? '%' : '#'; break; }
+    case 2: s.op2 = s.op2.substr(0, len / 2); break;
+    }
+    return s;
+}
 
 CaseM decode(Reader& r) {
     CaseM c;
@@ -109,10 +170,11 @@ CaseM decode(Reader& r) {
             tm.file = r.below(4) == 3 ? gen_name(r, 6) : groupFile;
             tm.line = r.pick(LINES);
             tm.ignored = r.below(6) == 5;
-            uint32_t shape = r.below(8);   // 0,1,2 pass; 3,4 FAIL in body; 5 FAIL in teardown; 6 both; 7 soft failures then FAIL
+            uint32_t shape = r.below(9);   // 0,1,2 pass; 3,4 FAIL in body; 5 FAIL in teardown; 6 both; 7 soft failures then FAIL; 8 STRCMP_EQUAL of long strings
             if (shape == 7) { uint32_t k = 1 + r.below(3); for (uint32_t i = 0; i < k; i++) tm.body.push_back(gen_step(r, tm, false)); if (r.flag()) tm.body.push_back(gen_step(r, tm, true)); }
             if (shape == 3 || shape == 4 || shape == 6) tm.body.push_back(gen_step(r, tm, true));
             if (shape == 5 || shape == 6) tm.teardown.push_back(gen_step(r, tm, true));
+            if (shape == 8) tm.body.push_back(gen_strcmp_step(r, tm));
             c.tests.push_back(tm);
         }
     }
@@ -120,7 +182,24 @@ CaseM decode(Reader& r) {
 }
 
 bool has_any(const std::string& s, const char* set) { return s.find_first_of(set) != std::string::npos; }
-std::string P(const std::string& s) { return verif::printable(s).substr(0, 300); }
+std::string P(const std::string& s) {
+    if (s.size() <= 160) return verif::printable(s);
+    return verif::printable(s.substr(0, 70)) + verif::sfmt("...(%zu chars)...", s.size()) + verif::printable(s.substr(s.size() - 40));
+}
+// where two texts part: lengths, position, and the surroundings of the first difference
+std::string D(const std::string& got, const std::string& want) {
+    size_t i = 0;
+    while (i < got.size() && i < want.size() && got[i] == want[i]) i++;
+    size_t from = i > 24 ? i - 24 : 0;
+    return verif::sfmt("lengths %zu / %zu, first difference at offset %zu: got \"..%s\" expected \"..%s\"", got.size(), want.size(), i,
+                       verif::printable(got.substr(from, 60)).c_str(), verif::printable(want.substr(from, 60)).c_str());
+}
+// a window of a long line around a column
+std::string W(const std::string& line, size_t col) {
+    if (line.size() <= 200) return verif::printable(line);
+    size_t from = col > 80 ? col - 80 : 0;
+    return verif::sfmt("(%zu chars) ..", line.size()) + verif::printable(line.substr(from, 160)) + "..";
+}
 
 // the message sequence the script implies, by the meaning of the run alone
 std::vector<Event> expected_events(const CaseM& c, size_t& suites) {
@@ -136,6 +215,7 @@ std::vector<Event> expected_events(const CaseM& c, size_t& suites) {
             for (int ph = 0; ph < 2; ph++)
                 for (auto& s : ph == 0 ? t.body : t.teardown) {
                     Event e; e.kind = Event::TestFailed; e.name = t.name; e.details = s.text;
+                    e.natural = s.strcmp; e.details2 = s.op2;
                     e.loc = s.file + ":" + std::to_string(s.line);
                     e.locWithPrefix = "TEST failed (" + t.file + ":" + std::to_string(t.line) + "): " + e.loc;
                     e.outside = s.file != t.file || s.line < t.line;
@@ -155,7 +235,8 @@ const SoftTerminator soft_terminator;
 
 void run_steps(const std::vector<Step>& steps) {
     for (auto& st : steps) {
-        if (st.exits) UtestShell::getCurrent()->fail(st.text.c_str(), st.file.c_str(), st.line);
+        if (st.strcmp) UtestShell::getCurrent()->assertCstrEqual(st.text.c_str(), st.op2.c_str(), NULLPTR, st.file.c_str(), st.line);   // STRCMP_EQUAL_LOCATION
+        else if (st.exits) UtestShell::getCurrent()->fail(st.text.c_str(), st.file.c_str(), st.line);
         else UtestShell::getCurrent()->fail(st.text.c_str(), st.file.c_str(), st.line, soft_terminator);
     }
 }
@@ -177,11 +258,16 @@ struct IgnoredShell : IgnoredUtestShell {
 };
 struct CapturingTeamCity : TeamCityTestOutput {
     std::string out;
+    std::vector<std::string>* messages = nullptr;   // the failure texts handed to the output (its input), in order
     void printBuffer(const char* s) CPPUTEST_OVERRIDE { out += s; }
     void flush() CPPUTEST_OVERRIDE {}
+    void printFailure(const TestFailure& f) CPPUTEST_OVERRIDE {
+        if (messages) messages->push_back(f.getMessage().asCharString());
+        TeamCityTestOutput::printFailure(f);
+    }
 };
 
-std::string execute(const CaseM& c) {
+std::string execute(const CaseM& c, std::vector<std::string>& messages) {
     verif::fake_millis_value = 0;
     std::vector<std::unique_ptr<UtestShell>> shells;
     for (auto& t : c.tests) {
@@ -189,6 +275,7 @@ std::string execute(const CaseM& c) {
         else shells.emplace_back(new Shell(&t));
     }
     CapturingTeamCity out;
+    out.messages = &messages;
     TestResult result(out);
     TestRegistry reg;
     if (c.runIgnored) reg.setRunIgnored();
@@ -205,9 +292,9 @@ struct Msg { std::string name; std::vector<std::pair<std::string, std::string>> 
 
 bool ident_char(char ch) { return (ch >= 'a' && ch <= 'z') || (ch >= 'A' && ch <= 'Z') || (ch >= '0' && ch <= '9') || ch == '_' || ch == '-' || ch == '.'; }
 
-bool parse_message(const std::string& line, Msg& m, std::string& err) {
+bool parse_message(const std::string& line, Msg& m, std::string& err, size_t& i) {
     static const char PRE[] = "##teamcity[";
-    size_t i = sizeof PRE - 1;
+    i = sizeof PRE - 1;
     if (line.compare(0, i, PRE) != 0) { err = "does not start with ##teamcity["; return false; }
     size_t s = i;
     while (i < line.size() && ident_char(line[i])) i++;
@@ -216,7 +303,7 @@ bool parse_message(const std::string& line, Msg& m, std::string& err) {
     for (;;) {
         if (i >= line.size()) { err = "line ends before the closing ]"; return false; }
         if (line[i] == ']') {
-            if (i + 1 != line.size()) { err = sfmt("message ends at column %zu but the line continues with \"%s\"", i + 1, P(line.substr(i + 1)).c_str()); return false; }
+            if (i + 1 != line.size()) { err = sfmt("message ends at column %zu but the line continues with \"%s\"", i + 1, P(line.substr(i + 1, 60)).c_str()); return false; }
             return true;
         }
         if (line[i] != ' ') { err = sfmt("expected space or ] at column %zu, found '%c'", i + 1, line[i]); return false; }
@@ -255,7 +342,8 @@ std::string render(const CaseM& c) {
         o += sfmt(" %s(\"%s\", \"%s\" @\"%s\":%u", t.ignored ? "IGNORE_TEST" : "TEST", P(t.group).c_str(), P(t.name).c_str(), P(t.file).c_str(), t.line);
         for (int ph = 0; ph < 2; ph++)
             for (auto& s : ph == 0 ? t.body : t.teardown)
-                o += sfmt(" %s%s(\"%s\" @\"%s\":%u)", ph ? "teardown:" : "", s.exits ? "FAIL" : "softFAIL", P(s.text).c_str(), P(s.file).c_str(), s.line);
+                o += s.strcmp ? sfmt(" STRCMP_EQUAL(\"%s\", \"%s\" @\"%s\":%u)", P(s.text).c_str(), P(s.op2).c_str(), P(s.file).c_str(), s.line)
+                              : sfmt(" %s%s(\"%s\" @\"%s\":%u)", ph ? "teardown:" : "", s.exits ? "FAIL" : "softFAIL", P(s.text).c_str(), P(s.file).c_str(), s.line);
         o += ")";
     }
     return o;
@@ -278,10 +366,30 @@ int run_and_judge(const CaseM& c, bool useKnown, bool& nontrivial) {
         if (e.knownCondition) verif::cls("failure:outside+test-file-needs-escaping");
     }
     nontrivial = special || suites >= 2;
+    {
+        size_t longest = 0;
+        for (auto& t : c.tests) { longest = std::max(longest, std::max(t.group.size(), std::max(t.name.size(), t.file.size()))); }
+        for (auto& e : ev) if (e.kind == Event::TestFailed) longest = std::max(longest, std::max(e.loc.size(), e.details.size()));
+        verif::cls(longest >= 4096 ? "longest-string:4096+" : (longest >= 512 ? "longest-string:512..4095" : (longest >= 128 ? "longest-string:128..511" : (longest >= 64 ? "longest-string:64..127" : "longest-string:<64"))));
+    }
     verif::cls(sfmt("suites:%zu", suites > 5 ? 5 : suites).c_str());
     if (nfailed >= 2) verif::cls("2+-failures");
 
-    std::string out = execute(c);
+    std::vector<std::string> messages;
+    std::string out = execute(c, messages);
+    // failures produced by a real check: the text the framework handed to the output is the original; it has to hold both operands
+    {
+        size_t k = 0;
+        for (auto& e : ev) if (e.kind == Event::TestFailed) {
+            if (e.natural && k < messages.size()) {
+                if (messages[k].find(e.details) == std::string::npos || messages[k].find(e.details2) == std::string::npos)
+                    verif::observe("a STRCMP_EQUAL failure text does not contain both operands verbatim (operands with CR/LF are shown escaped)");
+                e.details = messages[k];
+                verif::cls(e.details.size() >= 1000 ? "failure:natural-STRCMP-text>=1000" : "failure:natural-STRCMP-text");
+            }
+            k++;
+        }
+    }
     if (verif::g_explain) fprintf(stderr, "---- stream ----\n%s----\n", out.c_str());
 
     // walk the lines
@@ -300,13 +408,13 @@ int run_and_judge(const CaseM& c, bool useKnown, bool& nontrivial) {
         if (knownHere && useKnown && line.compare(0, 22, "##teamcity[testFailed ") == 0 && verif::known(KEY_FILE)) { next++; continue; }   // known finding: this one message is not decoded
         const char* over = knownHere ? KEY_FILE : nullptr;
 #define TC(cond, sig, ...) do { if (!(cond)) return verif::fail(over ? over : (sig), __VA_ARGS__); } while (0)
-        TC(at == 0, "C20:message-not-on-own-line", "line %zu: a service message starts at column %zu: \"%s\"", lineNo, at + 1, P(line).c_str());
-        TC(terminated, "C20:message-not-on-own-line", "line %zu: the stream ends inside a message: \"%s\"", lineNo, P(line).c_str());
-        Msg m; std::string err;
-        bool ok = parse_message(line, m, err);
-        TC(ok, "C20:message-malformed", "line %zu does not parse as one service message (%s): \"%s\"%s", lineNo, err.c_str(), P(line).c_str(),
+        TC(at == 0, "C20:message-not-on-own-line", "line %zu: a service message starts at column %zu: \"%s\"", lineNo, at + 1, W(line, at).c_str());
+        TC(terminated, "C20:message-not-on-own-line", "line %zu: the stream ends inside a message: \"%s\"", lineNo, W(line, line.size()).c_str());
+        Msg m; std::string err; size_t errcol = 0;
+        bool ok = parse_message(line, m, err, errcol);
+        TC(ok, "C20:message-malformed", "line %zu does not parse as one service message (%s): \"%s\"%s", lineNo, err.c_str(), W(line, errcol).c_str(),
            want ? sfmt("; expected %s for \"%s\"", kind_name(want->kind), P(want->name).c_str()).c_str() : "");
-        TC(want != nullptr, "C20:extra-message", "line %zu: message %s after the last expected one: \"%s\"", lineNo, m.name.c_str(), P(line).c_str());
+        TC(want != nullptr, "C20:extra-message", "line %zu: message %s after the last expected one: \"%s\"", lineNo, m.name.c_str(), W(line, 0).c_str());
         if (m.name != kind_name(want->kind)) {
             const char* sig = "C20:test-pairing";
             if (want->kind == Event::SuiteStart || want->kind == Event::SuiteFinish || m.name == "testSuiteStarted" || m.name == "testSuiteFinished") sig = "C20:suite-pairing";
@@ -316,7 +424,8 @@ int run_and_judge(const CaseM& c, bool useKnown, bool& nontrivial) {
         }
         const std::string* a = m.attr("name");
         const char* nsig = (want->kind == Event::SuiteStart || want->kind == Event::SuiteFinish) ? "C20:suite-name" : (want->kind == Event::TestFailed ? "C20:failed-test-name" : "C20:test-name");
-        TC(a && *a == want->name, nsig, "line %zu: %s name decodes to \"%s\", expected \"%s\"", lineNo, m.name.c_str(), a ? P(*a).c_str() : "(absent)", P(want->name).c_str());
+        TC(a && *a == want->name, nsig, "line %zu: %s name decodes to \"%s\", expected \"%s\" (%s)", lineNo, m.name.c_str(), a ? P(*a).c_str() : "(absent)", P(want->name).c_str(),
+           a ? D(*a, want->name).c_str() : "");
         if (want->kind == Event::TestFailed) {
             a = m.attr("message");
             bool plain = a && *a == want->loc, prefixed = a && *a == want->locWithPrefix;
@@ -324,7 +433,8 @@ int run_and_judge(const CaseM& c, bool useKnown, bool& nontrivial) {
                P(want->loc).c_str(), P(want->locWithPrefix).c_str());
             verif::cls(prefixed ? "location:with-TEST-failed-prefix" : "location:plain");
             a = m.attr("details");
-            TC(a && *a == want->details, "C20:failure-details", "line %zu: testFailed details decode to \"%s\", expected \"%s\"", lineNo, a ? P(*a).c_str() : "(absent)", P(want->details).c_str());
+            TC(a && *a == want->details, "C20:failure-details", "line %zu: testFailed details decode to \"%s\", expected \"%s\" (%s)", lineNo, a ? P(*a).c_str() : "(absent)", P(want->details).c_str(),
+               a ? D(*a, want->details).c_str() : "");
         }
         if (want->kind == Event::TestFinish) {
             a = m.attr("duration");
